@@ -39,8 +39,75 @@ def gen_box():
           "happens before the first proxy is created.  Proxy creation may run a nested serve() (HANDLE_INSPECT), so this",
           "order decides whether a release notice travelling behind the package can overtake its LOCAL_REFs. -/",
           "def localRefsResolvedFirst : Bool := %s" % ("true" if probe_unbox_order() else "false")]
+    L += ["", "/-- observed on the live `Connection` (dummy channel, no I/O): when a message whose value was boxed cannot be",
+          "serialized (`brine.dump` refuses it after `_box` registered its by-reference objects), in the request direction",
+          "(`_async_request`) and in the reply direction (`_dispatch_request`), the registrations are taken back. -/",
+          "def failedSendReleases : Bool := %s" % ("true" if probe_failed_send() else "false")]
     L += ["", "end Rpyc.Gen.Box", ""]
     return "\n".join(L)
+
+
+def unsendable_value():
+    """a plain value `_box` accepts and `brine.dump` refuses"""
+    import sys
+    lim = sys.get_int_max_str_digits() if hasattr(sys, "get_int_max_str_digits") else 0
+    if lim:
+        return 10 ** (lim + 10)
+    v = ()
+    for _ in range(sys.getrecursionlimit() * 3):
+        v = (v,)
+    return v
+
+
+def probe_failed_send():
+    """True: after a request / a reply that could not be serialized, `_local_objects` no longer holds the objects boxed
+    for it; False: it still does (in either direction)."""
+    from rpyc.core import consts
+    from rpyc.core.protocol import Connection
+    from rpyc.core.service import VoidService
+
+    class Chan(object):
+        closed = False
+
+        def __init__(self):
+            self.sent = []
+
+        def send(self, data):
+            self.sent.append(data)
+
+        def close(self):
+            pass
+
+    class Lent(object):
+        pass
+    bad = unsendable_value()
+    released = []
+    # request direction
+    conn = Connection(VoidService(), Chan())
+    try:
+        obj = Lent()
+        try:
+            conn._async_request(consts.HANDLE_PING, ((obj, (obj, 1)), bad))
+        except Exception:  # noqa
+            pass
+        else:
+            raise Inexpressible("a request carrying an unserializable value was sent in the failed-send probe")
+        released.append(len(conn._local_objects._dict) == 0)
+    finally:
+        conn._closed = True
+    # reply direction
+    conn = Connection(VoidService(), Chan())
+    try:
+        obj = Lent()
+        conn._HANDLERS = dict(conn._HANDLERS)
+        conn._HANDLERS[-1] = lambda self: (obj, bad, (obj,))
+        conn._dispatch_request(7, (-1, (consts.LABEL_VALUE, ())))
+        if len(conn._channel.sent) != 1:
+            raise Inexpressible("failed-send probe: %d messages went out for one request" % len(conn._channel.sent))
+        released.append(len(conn._local_objects._dict) == 0)
+    finally:
+        conn._closed = True
+    return all(released)
 
 
 def probe_unbox_order():
